@@ -146,6 +146,12 @@ func runR16(c *Ctx) {
 					if phi, ok := bo.X.(*ssa.Phi); ok && phi.Block() == colLoop.header {
 						return true
 					}
+					// len(columns) == 0 where columns is the slice the loop grows: no column has been built yet
+					if lc, ok := bo.X.(*ssa.Call); ok && builtinName(lc) == "len" {
+						if phi, ok := lc.Call.Args[0].(*ssa.Phi); ok && phi.Block() == colLoop.header {
+							return true
+						}
+					}
 				}
 			}
 			return false
